@@ -116,6 +116,7 @@ def build(u):
     u.spec("codec_spec.rs")
     u.spec("codec_all_spec.rs")
     u.spec("codec_next_bounds.rs")
+    u.spec("std_extra.rs")
     for c in ["const COM: u8", "const SEM: u8", "const ERR: u8", "const CONTINUATION_BIT: u8", "const DATA_MASK: u8", "const B64: [u8; 256]"]:
         u.item("src/decoder.rs", c)
     u.item("src/decoder.rs", "pub(crate) struct MappingsDecoder<'a>")
